@@ -36,6 +36,10 @@ type C07ConcCase struct {
 	PoolSpend    bool       `json:"pool_spend"`   // one confirmed output is spent in the pool beforehand
 	PoolPayment  []int      `json:"pool_payment"` // an unconfirmed payment is pooled beforehand
 	Workers      [][]ConcOp `json:"workers"`
+	// MinerBlocks blocks are added to the manager by another goroutine while
+	// the workers run; the wallet is not fed until they are done (it lags).
+	MinerBlocks int  `json:"miner_blocks,omitempty"`
+	MinerPool   bool `json:"miner_pool,omitempty"` // the blocks confirm the pool
 }
 
 func genC07Conc(t *rapid.T) C07ConcCase {
@@ -49,6 +53,10 @@ func genC07Conc(t *rapid.T) C07ConcCase {
 	c.PoolSpend = rapid.Bool().Draw(t, "pool-spend")
 	if rapid.Bool().Draw(t, "pool-payment") {
 		c.PoolPayment = genSizes(t, 4)
+	}
+	if rapid.IntRange(0, 2).Draw(t, "miner") > 0 {
+		c.MinerBlocks = rapid.IntRange(1, 3).Draw(t, "miner-blocks")
+		c.MinerPool = rapid.Bool().Draw(t, "miner-pool")
 	}
 	k := rapid.IntRange(2, 8).Draw(t, "workers")
 	for w := 0; w < k; w++ {
@@ -299,6 +307,26 @@ func runC07Conc(c C07ConcCase, cs *kit.CaseStats) error {
 			}
 		}(wi, ops)
 	}
+	if c.MinerBlocks > 0 {
+		cs.Class("chain-moves-during-the-calls")
+		wg.Add(1)
+		go func() {
+			defer wg.Done()
+			defer func() {
+				if r := recover(); r != nil {
+					fail(fmt.Errorf("miner panicked: %v", r))
+				}
+			}()
+			<-start
+			for i := 0; i < clampInt(c.MinerBlocks, 1, 3); i++ {
+				b := wd.mineOn(wd.cm.TipState(), wd.paddr, c.MinerPool, 0)
+				if err := wd.cm.AddBlocks([]types.Block{b}); err != nil {
+					fail(fmt.Errorf("INFRA: concurrent block rejected: %w", err))
+					return
+				}
+			}
+		}()
+	}
 	close(start)
 	done := make(chan struct{})
 	go func() { wg.Wait(); close(done) }()
@@ -312,14 +340,36 @@ func runC07Conc(c C07ConcCase, cs *kit.CaseStats) error {
 		return failures[0]
 	}
 
-	// ---- per-request oracle against the (unchanged) chain and pool facts
+	// ---- per-request oracle. The wallet's store did not change during the
+	// calls. The pool may have (blocks confirming it): an input counts as
+	// pool-spent only if it was so before and after, an unconfirmed output is
+	// admissible if it was one before or after.
 	t1 := time.Now()
-	v, err := wd.view(t0, t1) // reservations of the preparation are in force over the whole window
+	if err := wd.syncOthers(); err != nil {
+		return err
+	}
+	end, err := wd.view(t0, t1) // reservations of the preparation are in force over the whole window
 	if err != nil {
 		return err
 	}
-	if v.snap.tip != base.snap.tip {
-		return fmt.Errorf("INFRA: tip moved during the concurrent phase")
+	if end.snap.tip != base.snap.tip {
+		return fmt.Errorf("INFRA: the wallet store moved during the concurrent phase")
+	}
+	v := end
+	if c.MinerBlocks > 0 {
+		v.snap.P = map[scID]bool{}
+		for id := range end.snap.P {
+			if base.snap.P[id] {
+				v.snap.P[id] = true
+			}
+		}
+		v.snap.E = map[scID]types.SiacoinElement{}
+		for id, e := range base.snap.E {
+			v.snap.E[id] = e
+		}
+		for id, e := range end.snap.E {
+			v.snap.E[id] = e
+		}
 	}
 	for _, r := range all {
 		where := fmt.Sprintf("worker %d %s request (amount %v)", r.worker, r.kind, r.amount)
@@ -397,7 +447,7 @@ func runC07Conc(c C07ConcCase, cs *kit.CaseStats) error {
 	}
 	// ---- quiescent agreement
 	want := map[scID]types.SiacoinElement{}
-	for id, u := range v.S {
+	for id, u := range end.S {
 		want[id] = u
 	}
 	kept := 0
@@ -417,14 +467,14 @@ func runC07Conc(c C07ConcCase, cs *kit.CaseStats) error {
 	if err != nil {
 		return err
 	}
-	if d := diffSets(so, want, v.snap, wd, t0, time.Now()); d != "" {
+	if d := diffSets(so, want, end.snap, wd, t0, time.Now()); d != "" {
 		return fmt.Errorf("after the workers finished (%d requests, %d kept) SpendableOutputs disagrees with the spendable set minus kept inputs: %s", len(all), kept, d)
 	}
 	bal, err := wd.w.Balance()
 	if err != nil {
 		return err
 	}
-	if !bal.Spendable.Equals(soSum) {
+	if !wd.lagging() && !bal.Spendable.Equals(soSum) {
 		return fmt.Errorf("after the workers finished Balance().Spendable = %v, Σ SpendableOutputs = %v", bal.Spendable, soSum)
 	}
 	for _, r := range all {
@@ -439,8 +489,17 @@ func runC07Conc(c C07ConcCase, cs *kit.CaseStats) error {
 	if err != nil {
 		return err
 	}
-	if d := diffSets(so, v.S, v.snap, wd, t0, time.Now()); d != "" {
+	if d := diffSets(so, end.S, end.snap, wd, t0, time.Now()); d != "" {
 		return fmt.Errorf("after releasing every request SpendableOutputs is not back to the prepared state: %s", d)
+	}
+	if wd.lagging() {
+		// the wallet catches up with the blocks added meanwhile: full agreement
+		if err := wd.syncWallet(); err != nil {
+			return err
+		}
+		if err := wd.audit("after the wallet caught up with the concurrently added blocks"); err != nil {
+			return err
+		}
 	}
 	if len(all) >= 4 && k >= 3 {
 		cs.NonTrivial()
